@@ -123,7 +123,7 @@ func init() {
 			return p
 		})
 	s2Check("C10", "fault_enumeration", "runtime monitoring: online mastership monitor (terms, master changes, election id and connection of every device request against the configuration version its task read, re-sync gate)",
-		s2Rule, 150, 6000, map[string]int64{"mastership_changes": 300, "device_requests_checked": 500, "elections_checked": 300},
+		s2Rule, 150, 6000, map[string]int64{"mastership_changes": 300, "device_requests_checked": 500, "elections_checked": 300, "executions_reaching_final_state": 100},
 		func(c *fw.Case) *engine.Profile {
 			p := &engine.Profile{Targets: two, MinOps: 4, MaxOps: 9, PMulti: 25, PPoison: 8, PEq: 3, PDevReject: 5, PDelete: 25, PRollback: 8, PEnv: 85, PNoWait: 50, PSync: 10, PStartOffline: 40, PDevFault: 10, PSerializable: 25, Paths: "basic"}
 			if c.Index%2 == 1 {
